@@ -328,6 +328,21 @@ struct TdSys {
       F(fl, "quantile(0)==min", q0 == mn, "get_quantile(0) = " + str(q0) + ", min " + str(mn));
       F(fl, "quantile(1)==max", q1 == mx, "get_quantile(1) = " + str(q1) + ", max " + str(mx));
     }
+    // ---- the same clauses when the query is the FIRST one the digest sees (each on its own fresh copy: an earlier query
+    // compresses the buffer and can hide what a query does with values still waiting in it)
+    {
+      TD c0(s.d), c1(s.d), ch(s.d);
+      T f0 = c0.get_quantile(0), f1 = c1.get_quantile(1), fh = ch.get_quantile(0.5);
+      F(fl, "first-query:quantile(0)==min", f0 == mn, "get_quantile(0) as the first query = " + str(f0) + ", min " + str(mn));
+      F(fl, "first-query:quantile(1)==max", f1 == mx, "get_quantile(1) as the first query = " + str(f1) + ", max " + str(mx));
+      F(fl, "first-query:quantile-within-[min,max]", fh >= mn && fh <= mx, "get_quantile(0.5) as the first query = " + str(fh) + " outside [" + str(mn) + "," + str(mx) + "]");
+      TD cr(s.d); const T mid = dist[dist.size() / 2];
+      double rlo = cr.get_rank(mn), rmid = TD(s.d).get_rank(mid), rhi = TD(s.d).get_rank(mx);
+      F(fl, "first-query:rank-in-[0,1]-and-ordered", rlo >= 0 && rlo <= rmid + 1e-12 && rmid <= rhi + 1e-12 && rhi <= 1, "get_rank(min), get_rank(median value), get_rank(max) as first queries = " + str(rlo) + ", " + str(rmid) + ", " + str(rhi));
+      TD cc(s.d); const T spl[1] = {mid};
+      typename TD::vector_double fc = cc.get_CDF(spl, 1);
+      F(fl, "first-query:cdf", fc.size() == 2 && fc[0] >= 0 && fc[0] <= 1 && fc[1] == 1, "get_CDF({median value}) as the first query has size " + str(fc.size()));
+    }
     // ---- CDF / PMF agree with rank
     {
       // split points: the whole grid, thinned to every 3rd point (ends kept) when it is long
@@ -536,5 +551,9 @@ int main(int argc, char** argv) {
       add_e2<float>(tasks, cfg, k, streams[si], n, 50, 2);
     }
   }
+  // the largest legal compression parameters (k is a uint16_t; 2k no longer fits one from 32768 on): nothing is merged away at
+  // these sizes, so every answer is that of the exact multiset and the accuracy clause allows almost nothing
+  { const uint16_t bigk[] = {32767, 32768, 65535};
+    for (int i = 0; i < 3; ++i) { add_e2<double>(tasks, cfg, bigk[i], "clusters", 650, 50, 1); if (!q || i == 1) add_e2<float>(tasks, cfg, bigk[i], "altext", 650, 50, 1); } }
   return run_tasks(cfg, "C17", tasks);
 }
